@@ -311,3 +311,7 @@ func imax(a, b int) int {
 	}
 	return b
 }
+
+func sortInts(a []int, less func(x, y int) bool) {
+	sort.Slice(a, func(i, j int) bool { return less(a[i], a[j]) })
+}
